@@ -92,7 +92,22 @@ func VerifH_C07_Transform() {
 	want := mkDoc()
 	want["u"] = u
 	var expr string
-	switch verifChoose(6) {
+	switch verifChoose(9) {
+	case 6: // an update object taken from the data, with a null member: the member is set to null
+		doc["nu"] = map[string]interface{}{"p": nil, "c": 1.0}
+		want["nu"] = map[string]interface{}{"p": nil, "c": 1.0}
+		expr = `$ ~> |o|$$.nu|`
+		want["o"] = map[string]interface{}{"p": nil, "q": m, "c": 1.0}
+	case 7: // an update computed by a built-in function
+		doc["nu"] = map[string]interface{}{"c": 1.0}
+		want["nu"] = map[string]interface{}{"c": 1.0}
+		expr = `$ ~> |o|$merge([$$.nu, {"d": $$.u}])|`
+		want["o"] = map[string]interface{}{"p": n, "q": m, "c": 1.0, "d": u}
+	case 8: // deletes given by a path into the data
+		doc["del"] = []interface{}{"p", "nope"}
+		want["del"] = []interface{}{"p", "nope"}
+		expr = `$ ~> |o|{}, $$.del|`
+		want["o"] = map[string]interface{}{"q": m}
 	case 0:
 		expr = `$ ~> |o|{"z": $$.u}|`
 		want["o"].(map[string]interface{})["z"] = u
